@@ -141,6 +141,7 @@ type vcgen struct {
 	witness    []Wit
 
 	retTypes  map[string]types.Type
+	argTypes  map[string]types.Type
 	recSpecs  map[string][]string // recursive spec function -> state variables it takes as extra arguments
 	lockSnaps map[string]*State
 	closures  map[string]*ssa.MakeClosure
